@@ -13,7 +13,9 @@ COQ_HEADER = ("From Coq Require Import String List ZArith NArith Bool.\n"
 RUN_EXPR = "Run.C12.run"
 RULE = ("ordered pairs (a, b) of generated SassScript values: numbers (0..4 ulp apart, near 0/1/powers of ten, "
         "with/without units, calc() results, NaN, infinities), strings in both quote styles, booleans, null, "
-        "lists (space/comma/bracketed/nested/empty), maps (incl. empty, reordered), colours in several notations, "
+        "lists (space/comma/bracketed/nested/empty), maps (incl. empty, reordered), colours in several notations and "
+        "the same / nearly the same colour in every pair of internal forms (hwb-form, hsl-form, rgb-form with "
+        "non-integer channels, with alpha), "
         "function references; b is an independent value or a small perturbation of a; each pair is evaluated as "
         "a==b, b==a, a!=b, a<b, a>b, a==a; distinct = distinct pair text; non-trivial = a and b have the same kind")
 EXHAUSTIVE = {"quick": False, "thorough": False}
@@ -239,9 +241,50 @@ CORPUS = [(("num", "1", True), ("num", "0.9999999999999998", True)),
           (("list", [("num", "0.5s", True)], 2, False), ("list", [("num", "499.9999999999999ms", True)], 2, False))]
 
 
+def fnum(x):
+    t = f"{x:.12f}".rstrip("0").rstrip(".")
+    return t if t not in ("", "-0") else "0"
+
+
+def colour_spellings(rng):
+    """the same colour written in hwb-form, hsl-form and rgb-form (non-integer rgb channels, so that rsass keeps
+    the hwb / hsl internal forms), plus a nearly equal hsl colour"""
+    import colorsys
+    h = rng.choice([0, 30, 120, 200, 300, rng.randrange(0, 360)])
+    w = rng.choice([25.5, 10.1, 50.1, 33.3, 0.5, 12.25, 40.0])
+    b = rng.choice([25.5, 49.9, 10.1, 33.3, 0.5, 20.75, 30.0])
+    if w + b > 100:
+        w, b = 25.5, 25.5
+    v, ww = 1 - b / 100, w / 100
+    l = (v + ww) / 2
+    s = 0.0 if l <= 0 or l >= 1 else (v - l) / min(l, 1 - l)
+    r, g, bl = colorsys.hls_to_rgb(h / 360, l, s)
+    sp = [f"hwb({h} {fnum(w)}% {fnum(b)}%)", f"hsl({h}, {fnum(s * 100)}%, {fnum(l * 100)}%)",
+          f"rgb({fnum(r * 255)}, {fnum(g * 255)}, {fnum(bl * 255)})"]
+    near = f"hsl({h}, {fnum(s * 100)}%, {fnum(l * 100 + rng.choice([1e-9, 1e-6, 0.01]))}%)"
+    alpha = rng.choice([0.5, 0.25])
+    spa = [f"hwb({h} {fnum(w)}% {fnum(b)}% / {alpha})", f"hsla({h}, {fnum(s * 100)}%, {fnum(l * 100)}%, {alpha})"]
+    return sp, near, spa
+
+
 def gen_cases(ctx, tier):
     rng = ctx.rng
     cases = [{"a": a, "b": b} for a, b in CORPUS]
+    # colours in every combination of internal form, both orders (judged on rsass's answers only)
+    for (x, y) in [("hwb(120 25.5% 25.5%)", "hsl(120, 49%, 50%)"), ("hwb(0 50.1% 49.9%)", "hsl(0, 0%, 50.1%)")]:
+        cases.append({"a": ("other", x), "b": ("other", y)})
+        cases.append({"a": ("other", y), "b": ("other", x)})
+    for _ in range(30 if tier == "quick" else 600):
+        sp, near, spa = colour_spellings(rng)
+        for i in range(3):
+            for j in range(3):
+                cases.append({"a": ("other", sp[i]), "b": ("other", sp[j])})
+            cases.append({"a": ("other", sp[i]), "b": ("other", near)})
+            cases.append({"a": ("other", near), "b": ("other", sp[i])})
+        cases.append({"a": ("other", spa[0]), "b": ("other", spa[1])})
+        cases.append({"a": ("other", spa[1]), "b": ("other", spa[0])})
+        cases.append({"a": ("list", [("other", sp[0]), ("num", "1", True)], 1, False),
+                      "b": ("list", [("other", sp[1]), ("num", "1", True)], 1, False)})
     n = 700 if tier == "quick" else 20000
     for _ in range(n):
         a = gen_value(rng)
